@@ -559,3 +559,73 @@ package op
 //@   ensures fail-closed: err != nil ==> result0 == nil && result1 == nil
 //@   ensures authenticated: err == nil ==> valid(result0) && valid(result1) && authenticated(result1.GetID())
 //@   ensures grant-registered: err == nil ==> grantRegistered(result1, oidc.GrantTypeTokenExchange)
+
+// ---- C18: RP-initiated logout ----
+
+// registeredPostLogout is written from the statement: an exact match, or a match of a glob of a
+// client that opted into globs (path.Match semantics).
+//@ spec func registeredPostLogout(c Client, uri string) bool = contains(c.PostLogoutRedirectURIs(), uri)
+//@      || (implements(c, "HasRedirectGlobs") && exists g int :: 0 <= g && g < len(as(c, "HasRedirectGlobs").PostLogoutRedirectURIGlobs()) && pathGlobMatch(as(c, "HasRedirectGlobs").PostLogoutRedirectURIGlobs()[g], uri))
+//@ loop op.ValidateEndSessionPostLogoutRedirectURI#1
+//@   invariant none-yet: forall k int :: 0 <= k && k <= rangeindex ==> client.PostLogoutRedirectURIs()[k] != postLogoutRedirectURI
+//@ loop op.ValidateEndSessionPostLogoutRedirectURI#2
+//@   invariant none-yet: forall k int :: 0 <= k && k <= rangeindex ==> !pathGlobMatch(globClient.PostLogoutRedirectURIGlobs()[k], postLogoutRedirectURI)
+//@ func op.ValidateEndSessionPostLogoutRedirectURI
+//@   requires valid(client)
+//@   modifies nothing
+//@   ensures registered: result == nil ==> registeredPostLogout(client, postLogoutRedirectURI)
+//@   ensures exact-accepted: contains(client.PostLogoutRedirectURIs(), postLogoutRedirectURI) ==> result == nil
+
+// The hint verifier of a provider is built per request for the request's issuer and the
+// configured hint key set.
+//@ func op.Provider.IDTokenHintVerifier
+//@   requires valid(o)
+//@   ensures per-request-issuer: callarg("op.NewIDTokenHintVerifier", 0) == callres("op.IssuerFromContext", 0)
+//@   ensures hint-key-set: callarg("op.NewIDTokenHintVerifier", 1) == old(o.idTokenHinKeySet)
+//@   ensures fresh-verifier: result == callres("op.NewIDTokenHintVerifier", 0)
+
+// Frame of the query-merging helper (its functional behaviour is C11's subject): only *uri changes.
+//@ func op.mergeQueryParams
+//@   requires valid(uri)
+//@   modifies *uri
+//@   trusted
+
+//@ func op.ValidateEndSessionRequest
+//@   requires valid(req) && valid(ender)
+//@   ensures fail-closed: err != nil ==> result0 == nil
+//@   ensures valid: err == nil ==> result0 != nil
+//@   ensures hint-verified: err == nil && old(req.IdTokenHint) != "" ==>
+//@        (callres("op.VerifyIDTokenHint", 1) == nil || typeis(callres("op.VerifyIDTokenHint", 1), "IDTokenHintExpiredError"))
+//@        && callarg("op.VerifyIDTokenHint", 1) == old(req.IdTokenHint)
+//@   ensures hint-subject: err == nil && old(req.IdTokenHint) != "" ==> result0.UserID == as(callres("op.VerifyIDTokenHint", 0), "*oidc.IDTokenClaims").Subject
+//@   ensures hint-client: err == nil && old(req.IdTokenHint) != "" ==> req.ClientID == as(callres("op.VerifyIDTokenHint", 0), "*oidc.IDTokenClaims").AuthorizedParty
+//@        && (old(req.ClientID) == "" || old(req.ClientID) == req.ClientID)
+//@   ensures no-hint-client: err == nil && old(req.IdTokenHint) == "" ==> req.ClientID == old(req.ClientID)
+//@   ensures session-client: err == nil && req.ClientID != "" ==> callres("op.OPStorage.GetClientByClientID", 1) == nil
+//@        && result0.ClientID == callres("op.OPStorage.GetClientByClientID", 0).GetID() && result0.ClientID == req.ClientID
+//@   ensures redirect-registered: err == nil && req.PostLogoutRedirectURI != "" && req.ClientID != ""
+//@        ==> registeredPostLogout(callres("op.OPStorage.GetClientByClientID", 0), req.PostLogoutRedirectURI)
+//@   ensures redirect-base: err == nil && req.State == "" ==> result0.RedirectURI ==
+//@        ite(req.PostLogoutRedirectURI != "" && req.ClientID != "", req.PostLogoutRedirectURI, ender.DefaultLogoutRedirectURI())
+//@   ensures state-appended: err == nil && req.State != "" ==> result0.RedirectURI == callres("op.mergeQueryParams", 0)
+//@        && callarg("net/url.Parse", 0) == ite(req.PostLogoutRedirectURI != "" && req.ClientID != "", req.PostLogoutRedirectURI, ender.DefaultLogoutRedirectURI())
+
+// Redirect only after the session of the validated request was terminated.
+//@ func op.EndSession
+//@   requires !Resp_written[w] && valid(r) && valid(ender) && valid(w)
+//@   modifies Resp_written[w], Resp_status[w], Resp_location[w], Resp_body[w]
+//@   unframed
+//@   ensures responded: Resp_written[w]
+//@   ensures redirect-only-validated: Resp_status[w] == 302 ==> callres("op.ValidateEndSessionRequest", 1) == nil
+//@   ensures default-target: Resp_status[w] == 302 && !implements(ender.Storage(), "CanTerminateSessionFromRequest")
+//@        ==> Resp_location[w] == callres("op.ValidateEndSessionRequest", 0).RedirectURI && callres("op.AuthStorage.TerminateSession", 0) == nil
+//@        && callarg("op.AuthStorage.TerminateSession", 1) == callres("op.ValidateEndSessionRequest", 0).UserID
+//@        && callarg("op.AuthStorage.TerminateSession", 2) == callres("op.ValidateEndSessionRequest", 0).ClientID
+//@ func op.LegacyServer.EndSession
+//@   requires valid(s) && valid(s.provider) && valid(r) && valid(r.Data)
+//@   ensures fail-closed: err != nil ==> result0 == nil
+//@   ensures redirect-only-validated: err == nil ==> callres("op.ValidateEndSessionRequest", 1) == nil
+//@   ensures default-target: err == nil && !implements(s.provider.Storage(), "CanTerminateSessionFromRequest")
+//@        ==> result0 != nil && result0.URL == callres("op.ValidateEndSessionRequest", 0).RedirectURI
+//@        && callarg("op.AuthStorage.TerminateSession", 1) == callres("op.ValidateEndSessionRequest", 0).UserID
+//@        && callarg("op.AuthStorage.TerminateSession", 2) == callres("op.ValidateEndSessionRequest", 0).ClientID
